@@ -22,7 +22,7 @@ for f in $(git status --porcelain | grep '^??' | awk '{print $2}' | grep -v veri
 echo "== suite with patch (must pass)" >> "$log"
 suite=1
 for try in 1 2 3; do
-  unshare -n sh -c "ip link set lo up; go test -vet=off -count=1 -timeout 25m ./..." > "$log.suite" 2>&1 && { suite=0; break; }
+  unshare -n sh -c "ip link set lo up; go test -vet=off -count=1 -timeout 25m \$(go list ./... | grep -v verif_out)" > "$log.suite" 2>&1 && { suite=0; break; }
   # retry only the failing packages (fixed ports / timing make some script tests flaky under load)
   fails=$(grep '^FAIL' "$log.suite" | awk '{print $2}' | grep github | sort -u)
   ok=1; for p in $fails; do unshare -n sh -c "ip link set lo up; go test -vet=off -count=1 $p" >> "$log" 2>&1 || ok=0; done
